@@ -521,6 +521,11 @@ package vanguard
 //@   opt inline
 
 //@ func (*transformingWriter).flushMessage
+// C03: a client protocol without envelopes has no per-message compressed flag; when the response
+// head declares a compression, a message the backend sent uncompressed is compressed before it is
+// written, so that the declared compression matches the bytes
+//@   track comps ?= (*message).compress
+//@   atcall[C03,C01] (*bytes.Buffer).WriteTo: w.rw.op.clientEnveloper == nil && w.rw.op.client.respCompression != nil && !w.msg.wasCompressed ==> comps == 1
 //@   atcall[C01,C09] (*bytes.Buffer).WriteTo: oneResponse(w.rw) ==> !w.rw.msgForwarded
 //@   track unlimited ?= (*compressionPool).decompress
 //@   ensures[C10] unlimited == 0
@@ -618,6 +623,9 @@ package vanguard
 //@   ensures[C03] old(w.endWritten) ==> w.endWritten
 //@   ensures[C16] !old(w.headersWritten) && !old(w.endWritten) && w.err == nil && !mustBuffer(w.op.client.protocol) && !typeIs(w.w, *errorWriter) ==> w.headersFlushed && w.buf == nil
 //@   ensures[C16] !old(w.headersWritten) && w.buf != nil ==> mustBuffer(w.op.client.protocol)
+// C03: same-codec responses are passed through envelope by envelope only if the client can be told,
+// message by message, whether the bytes are compressed
+//@   ensures[C03] !old(w.headersWritten) && typeIs(w.w, *envelopingWriter) && w.op.clientEnveloper == nil && w.op.serverEnveloper != nil ==> w.respMeta.compression == ""
 // C04: an error body that has to be read before the error can be reported (Connect unary, REST) is
 // decompressed with the compression the response declares, exactly like a message body.
 //@   ensures[C04] !old(w.headersWritten) && typeIs(w.w, *errorWriter) && w.respMeta.compression != "" ==> has(w.op.compressors, w.respMeta.compression) && w.op.server.respCompression == w.op.compressors[w.respMeta.compression]
@@ -754,6 +762,11 @@ package vanguard
 //@ |  && (r.envRemain > 0 ==> r.rw.op.serverEnveloper != nil) && (r.msg.buf != nil ==> r.msg.buf != r.rw.buf)
 
 //@ func (*transformingReader).prepareMessage
+// C02: the mirror image of the response side - a backend protocol without envelopes is told once, in
+// the request head, that the body is compressed; a message the client sent uncompressed (flag 0) on a
+// compressed stream is compressed before it is handed over
+//@   track comps ?= (*message).compress
+//@   ensures[C02,C01] err == nil && r.rw.op.serverEnveloper == nil && r.rw.op.server.reqCompression != nil && !r.msg.wasCompressed ==> comps == 1
 //@   opt conv
 //@   requires validTR(r)
 //@   requires[C14] ownMsg(r.msg)
@@ -920,6 +933,7 @@ package vanguard
 // validTR (C03, C08, C09, C10, C16), exactly one dispatch or one error report (C18), and the shape of
 // the request the backend sees (C02).
 //@ func (*operation).handle
+//@   atcall[C02] (net/http.Handler).ServeHTTP: typeIs(arg(2).Body, *envelopingReader) ==> !(o.clientEnveloper != nil && o.serverEnveloper == nil && o.server.reqCompression != nil)
 //@   atcall[C02,C01,C19] (*message).advanceToStage: reqMsg.isRequest && (o.clientEnveloper == nil ==> reqMsg.wasCompressed == (o.client.reqCompression != nil))
 //@   dispatch (net/http.Handler).ServeHTTP: opaque
 //@   requires validOp(o) && o.isValid && validReq(o.request) && o.writer != nil && extern(o.writer) && !typeIs(o.writer, *bytes.Buffer) && o.cancel != nil && o.request.ContentLength == -1
